@@ -246,7 +246,17 @@ func TestC19Commands(t *testing.T) {
 					classes = append(classes, "controller-changed-canary-during-command")
 				}
 			}
-			_ = interPre
+			// a merge patch only carries the keys the command changed relative to what it had read: if the
+			// interleaved reconcile itself rewrote the annotations (it clears the canary annotations when a canary
+			// ends), the documented values cannot be demanded of the result - the command hit a moving target
+			annRace := false
+			if interPre != nil && interPost != nil {
+				a, b := interPre.EDSByKey(k.Namespace, k.Name), interPost.EDSByKey(k.Namespace, k.Name)
+				if a == nil || b == nil || !reflect.DeepEqual(a.Annotations, b.Annotations) {
+					annRace = true
+					classes = append(classes, "controller-changed-annotations-during-command")
+				}
+			}
 			w.Cmds++
 			w.C.Tracef("command %s (precondition %v, state %q) -> err=%v %s", cmd, pre, e.Status.State, err, strings.TrimSpace(out))
 			writes := 0
@@ -300,6 +310,9 @@ func TestC19Commands(t *testing.T) {
 				want[oracle.AnnRolloutFrozen] = "false"
 			}
 			for ak, av := range want {
+				if annRace {
+					break
+				}
 				if post.Annotations[ak] != av {
 					fail("C19/commands/"+cmd+"/annotation-value", fmt.Sprintf("%s succeeded but annotation %s=%q, want %q", cmd, ak, post.Annotations[ak], av))
 				}
